@@ -83,23 +83,64 @@ class Facts:
             return False
         return frozenset(x for x in st if not dead(x))
 
+    MAXD = 8
+
+    @staticmethod
+    def consistent(fs):
+        """False when the fact set is contradictory (so the path is infeasible)."""
+        ords = [x for x in fs if x[0] != "ne"]
+        for a, b, k in ords:
+            if a is None and b is None and k < 0:
+                return False
+            if a == b and k < 0:
+                return False
+        idx = {}
+        for a, b, k in ords:
+            key = (a, b)
+            if key not in idx or k < idx[key]:
+                idx[key] = k
+        for (a, b), k1 in idx.items():
+            k2 = idx.get((b, a))
+            if k2 is not None and k1 + k2 < 0:
+                return False
+        for x in fs:
+            if x[0] == "ne":
+                _, a, b, k = x
+                k1 = idx.get((a, b))
+                k2 = idx.get((b, a))
+                if k1 is not None and k2 is not None and k1 <= k and k2 <= -k:
+                    return False
+                if a is None and b is None and k == 0:
+                    return False
+                if a == b and k == 0:
+                    return False
+        return True
+
     def solve(self):
         f = self.f
         u = f.unit
 
-        def transfer(st, e):
+        def transfer1(st, e):
             if e.is_assign:
                 lhs = norm(e.kid(0))
                 st = self._kill(st, lhs)
                 if e.op == "=":
                     rhs = norm(e.kid(1))
-                    if rhs[0] == "=":       # chained assignment: value is the inner target
+                    while rhs[0] == "=":       # chained assignment: value is the inner target
                         rhs = rhs[1]
-                    if not mentions(rhs, lhs) and rhs[0] != "call" and not any(t[0] == "call" for t in subterms(rhs)):
+                    if not mentions(rhs, lhs) and not any(t[0] == "call" for t in subterms(rhs)):
                         st = st | frozenset(self.mk("==", lhs, rhs))
                 return st
             if e.is_incdec:
                 return self._kill(st, norm(e.kid(0)))
+            if e.cls == "DeclStmt":
+                for d in e.decls or []:
+                    if d.get("init") is not None:
+                        lhs = ("v", d["name"], d["id"])
+                        rhs = norm(f.elem(d["init"]))
+                        if not any(t[0] == "call" for t in subterms(rhs)):
+                            st = st | frozenset(self.mk("==", lhs, rhs))
+                return st
             if e.cls == "CallExpr":
                 for a in e.args:
                     if a is None:
@@ -116,25 +157,50 @@ class Facts:
                 return st
             return st
 
-        def refine(st, cond, kind):
+        def transfer(S, e):
+            if not (e.is_assign or e.is_incdec or e.cls in ("CallExpr", "DeclStmt")):
+                return S
+            return frozenset(transfer1(st, e) for st in S)
+
+        def refine(S, cond, kind):
             if kind not in (True, False):
-                return st
+                return S
+            add = []
             for op, L, R, _, _ in cond_atoms(cond, kind):
-                if L[0] == "=":
-                    continue
+                while L[0] == "=":
+                    L = L[1]
                 if any(t[0] == "call" for t in subterms(L)) or any(t[0] == "call" for t in subterms(R)):
                     continue
-                st = st | frozenset(self.mk(op, L, R))
-            return st
+                add += self.mk(op, L, R)
+            if not add:
+                return S
+            add = frozenset(add)
+            out = set()
+            for st in S:
+                n = st | add
+                if self.consistent(n):
+                    out.add(n)
+            if not out:
+                return None
+            return frozenset(out)
 
-        self.s = Solver(f, self.entry, transfer, refine, lambda a, b: a & b).run()
+        def join(A, B):
+            J = A | B
+            if len(J) > self.MAXD:
+                inter = None
+                for st in J:
+                    inter = st if inter is None else (inter & st)
+                return frozenset([inter])
+            return J
+
+        self.s = Solver(f, frozenset([self.entry]), transfer, refine, join, limit=400).run()
         return self
 
     def holds_before(self, elem, op, L, R):
-        st = self.s.state_before(elem)
-        if st is None:
+        S = self.s.state_before(elem)
+        if S is None:
             return True     # unreachable
-        return self.implied(st, op, L, R)
+        return all(self.implied(st, op, L, R) for st in S)
 
     @staticmethod
     def implied(st, op, L, R):
@@ -142,10 +208,11 @@ class Facts:
             if want[0] == "ne":
                 if want in st:
                     continue
-                # strict order either way implies !=
                 _, a, b, k = want
-                if any(x[0] == a and x[1] == b and x[2] <= k - 1 for x in st if x[0] != "ne") or \
-                   any(x[0] == b and x[1] == a and x[2] <= -k - 1 for x in st if x[0] != "ne"):
+                if ("ne", b, a, -k) in st:
+                    continue
+                if any(x[0] != "ne" and x[0] == a and x[1] == b and x[2] <= k - 1 for x in st) or \
+                   any(x[0] != "ne" and x[0] == b and x[1] == a and x[2] <= -k - 1 for x in st):
                     continue
                 return False
             a, b, k = want
@@ -153,18 +220,29 @@ class Facts:
                 if 0 <= k:
                     continue
                 return False
-            if not any(x[0] != "ne" and x[0] == a and x[1] == b and x[2] <= k for x in st):
-                return False
+            if a == b and k >= 0:
+                continue
+            if any(x[0] != "ne" and x[0] == a and x[1] == b and x[2] <= k for x in st):
+                continue
+            # a <= b + k + 1 together with a != b + k + 1
+            if any(x[0] != "ne" and x[0] == a and x[1] == b and x[2] <= k + 1 for x in st) and \
+               (("ne", a, b, k + 1) in st or ("ne", b, a, -(k + 1)) in st):
+                continue
+            return False
         return True
 
     def best_bound(self, elem, L, R):
-        """Smallest k with L <= R + k known before elem, or None."""
-        st = self.s.state_before(elem)
-        if st is None:
+        """Smallest k with L <= R + k known before elem on every path, or None."""
+        S = self.s.state_before(elem)
+        if S is None:
             return None
         lb, lc = lin(L)
         rb, rc = lin(R)
-        ks = [x[2] for x in st if x[0] != "ne" and x[0] == lb and x[1] == rb]
-        if not ks:
-            return None
-        return min(ks) - (rc - lc)
+        worst = None
+        for st in S:
+            ks = [x[2] for x in st if x[0] != "ne" and x[0] == lb and x[1] == rb]
+            if not ks:
+                return None
+            k = min(ks) - (rc - lc)
+            worst = k if worst is None else max(worst, k)
+        return worst
